@@ -227,4 +227,5 @@ func checkPrincipalEqual(c *Ctx) {
 		}
 	}
 	c.Count("principal-equal-pairs")
+	checkSharedHelpers(c)
 }
